@@ -1,3 +1,5 @@
 import TxV.Util.AuditCmd
 import TxV.Props.C05
+import TxV.Props.C05b
 #txv_audit TxV.Props.C05
+#txv_audit TxV.Props.C05b
